@@ -83,8 +83,32 @@ D8 == [prolog |-> <<>>, nodes |-> <<
   ElQ(14, "q", "b", "u2"), XmlNs(18), NsN(18, Cp("p"), Cp("u1")), NsN(18, Cp("q"), Cp("u2")),
   Tx(14, "1") >>]
 
-\* D7 is used by the family "ctx" only, D8 by the family "ns" only
-DocSeq == IF Tier = "tiny" THEN <<D1>> ELSE <<D1, D2, D3, D4, D5, D6, D7, D8>>
+(***************************************************************************)
+(* Generated documents (thorough tier): <a> with every sequence of at most *)
+(* 3 children drawn from 7 child shapes (leaf element, element with an     *)
+(* attribute, text, comment, PI, element with text, element with an        *)
+(* element child), adjacent text nodes excluded.                           *)
+(***************************************************************************)
+ChildShapes == {"eb", "ec", "t", "c", "p", "ebt", "ebc"}
+ShapeNodes(sh, idx, nth) ==
+  CASE sh = "eb"  -> <<El(2, "b")>>
+    [] sh = "ec"  -> <<El(2, "c"), At(idx, "x", "1")>>
+    [] sh = "t"   -> <<Tx(2, IF nth = 1 THEN "1" ELSE "2")>>
+    [] sh = "c"   -> <<Cm(2, "c")>>
+    [] sh = "p"   -> <<Pi(2, "p", "s")>>
+    [] sh = "ebt" -> <<El(2, "b"), Tx(idx, "12")>>
+    [] sh = "ebc" -> <<El(2, "b"), El(idx, "c")>>
+RECURSIVE BuildKids(_, _, _)
+BuildKids(ks, k, acc) == IF k > Len(ks) THEN acc ELSE BuildKids(ks, k + 1, acc \o ShapeNodes(ks[k], Len(acc) + 1, k))
+NoAdjText(ks) == \A k \in 1..(Len(ks) - 1) : ~(ks[k] = "t" /\ ks[k + 1] = "t")
+GenShapes == { ks \in UNION { [1..n -> ChildShapes] : n \in 0..3 } : NoAdjText(ks) }
+GenDocSeq == IF Tier = "thorough"
+             THEN LET S == SetToSeq(GenShapes)
+                  IN  [i \in 1..Len(S) |-> [prolog |-> <<>>, nodes |-> BuildKids(S[i], 1, <<RootN, El(1, "a")>>)]]
+             ELSE <<>>
+
+\* D7 is used by the family "ctx" only, D8 by the family "ns" only, the generated ones by "g1"
+DocSeq == IF Tier = "tiny" THEN <<D1>> ELSE <<D1, D2, D3, D4, D5, D6, D7, D8>> \o GenDocSeq
 \* caller-side namespace bindings (prefixes of the expression context; note the swapped ones)
 BindSeq == << <<>>,
               << <<Cp("r"), Cp("u1")>> >>,
@@ -196,9 +220,11 @@ Seeds ==
   \cup (IF "ctx" \in Families THEN { [fam |-> "ctx", d |-> k, a |-> "-", b |-> 1] : k \in 1..7 } ELSE {})
   \cup (IF "ns" \in Families THEN { [fam |-> "ns", d |-> 8, a |-> "-", b |-> k] : k \in 1..Len(BindSeq) } ELSE {})
   \cup (IF "ar" \in Families THEN { [fam |-> f, d |-> 1, a |-> o, b |-> 1] : f \in {"ar", "ar3"}, o \in ArOps } ELSE {})
+  \cup { [fam |-> "g1", d |-> 8 + k, a |-> ax, b |-> 1] : k \in 1..Len(GenDocSeq), ax \in UsedAxes }
 
 Expand(s) ==
   CASE s.fam = "p1" -> { Rel(<<st>>) : st \in StepsOfAxis(s.a) } \cup { AbsP(<<Dos, st>>) : st \in StepsOfAxis(s.a) }
+    [] s.fam = "g1" -> { AbsP(<<Dos, Step(s.a, t, p)>>) : t \in Tests, p \in PredsSmall }
     [] s.fam = "p2" -> { AbsP(ld \o <<st>>) : ld \in Lead, st \in StepsOfAxis(s.a) }
     [] s.fam = "un" -> { Bin("|", A, B) : A \in Pool, B \in Pool }
                        \cup { Bin("|", Bin("|", A, B), C) : A \in Pool, B \in Pool, C \in PathPoolSmall }
@@ -283,11 +309,18 @@ StyleInv ==
   /\ NonParen(ET(ast, [abbrev |-> TRUE, ws |-> 0, parens |-> TRUE]))
        = NonParen(ET(ast, [abbrev |-> TRUE, ws |-> 0, parens |-> FALSE]))
 
+\* reading back the tokens of the operator families gives the abstract expression again, with minimal
+\* and with redundant parentheses (XPathSyntax!Read is written from the grammar, not from NeedsParens)
+ReadBack ==
+  seed.fam \in {"ar", "ar3"} =>
+    /\ Read(ET(ast, Canonical)) = ast
+    /\ Read(ET(ast, [abbrev |-> TRUE, ws |-> 0, parens |-> TRUE])) = ast
+
 Case == [k |-> "xp", fam |-> seed.fam, doc |-> seed.d, binds |-> Binds, ast |-> ast,
-         sp |-> Spellings(ast, IF Tier = "thorough" THEN AllStyleSeq ELSE StyleSeq), exp |-> Val(ast)]
+         sp |-> Spellings(ast, IF Tier = "thorough" /\ seed.fam # "g1" THEN AllStyleSeq ELSE StyleSeq), exp |-> Val(ast)]
 Emit == PrintT(<<"REPLAY", ToJson(Case)>>)
 
-Inv == stage = 1 => (SortedInv /\ UnionAlgebra /\ FilterCounts /\ NumPredExpansion /\ StyleInv /\ Emit)
+Inv == stage = 1 => (SortedInv /\ UnionAlgebra /\ FilterCounts /\ NumPredExpansion /\ StyleInv /\ ReadBack /\ Emit)
 
 \* documents are printed once
 ASSUME \A k \in 1..Len(DocSeq) :
